@@ -38,21 +38,23 @@ VERIF_CT(isdigit) VERIF_CT(isalpha) VERIF_CT(isalnum) VERIF_CT(isxdigit) VERIF_C
 #define ENUM_OK(e) ((int)(e) >= 0)
 #define REACH(tag) __CPROVER_assert(0, "reach:" tag)
 
-/* nondet sources (names must start with nondet_) */
-int nondet_int(void);
-unsigned nondet_uint(void);
-long nondet_long(void);
-unsigned long nondet_ulong(void);
-unsigned long long nondet_u64(void);
-unsigned short nondet_u16(void);
-short nondet_i16(void);
-unsigned char nondet_u8(void);
-signed char nondet_i8(void);
-char nondet_char(void);
-_Bool nondet_bool(void);
-size_t nondet_size(void);
-double nondet_double(void);
-float nondet_float(void);
+/* nondet sources (names must start with nondet_).  Every call goes through a recording wrapper: the value lands in a
+ * local named nd_rec, which the runner reads back from a counterexample in call order (native replay of harness jobs). */
+#define ND_SRC(T, name) T nondet_raw_##name(void); static inline T nondet_##name(void) { T nd_rec = nondet_raw_##name(); return nd_rec; }
+ND_SRC(int, int)
+ND_SRC(unsigned, uint)
+ND_SRC(long, long)
+ND_SRC(unsigned long, ulong)
+ND_SRC(unsigned long long, u64)
+ND_SRC(unsigned short, u16)
+ND_SRC(short, i16)
+ND_SRC(unsigned char, u8)
+ND_SRC(signed char, i8)
+ND_SRC(char, char)
+ND_SRC(_Bool, bool)
+ND_SRC(size_t, size)
+ND_SRC(double, double)
+ND_SRC(float, float)
 void *nondet_ptr(void);
 
 /* ------------------------------------------------------------------------------------
